@@ -301,6 +301,92 @@ def _remove_stmt(root: ast.AST, st: ast.stmt) -> None:
                 return
 
 
+def fold_rebinding(repo: Repo) -> int:
+    """N10:  x = E ; T = x   ->   T = E   when x is a plain local used nowhere else (E may await: nothing moves
+    across another statement).  Covers `responses = await f(); [resp] = responses`."""
+    count = 0
+
+    def process(fn_node: ast.AST, body: list[ast.stmt]) -> None:
+        nonlocal count
+        i = 0
+        while i + 1 < len(body):
+            a, b = body[i], body[i + 1]
+            for st in (a,):
+                for fld in ("body", "orelse", "finalbody"):
+                    bb = getattr(st, fld, None)
+                    if isinstance(bb, list) and bb and isinstance(bb[0], ast.stmt):
+                        process(fn_node, bb)
+                for h in getattr(st, "handlers", []) or []:
+                    process(fn_node, h.body)
+            if (
+                isinstance(a, ast.Assign) and len(a.targets) == 1 and isinstance(a.targets[0], ast.Name)
+                and isinstance(b, ast.Assign) and isinstance(b.value, ast.Name) and b.value.id == a.targets[0].id
+            ):
+                x = a.targets[0].id
+                occ = [n for n in ast.walk(fn_node) if isinstance(n, ast.Name) and n.id == x]
+                if len(occ) == 2:
+                    b.value = a.value
+                    del body[i]
+                    count += 1
+                    continue
+            i += 1
+        if body:
+            st = body[-1]
+            for fld in ("body", "orelse", "finalbody"):
+                bb = getattr(st, fld, None)
+                if isinstance(bb, list) and bb and isinstance(bb[0], ast.stmt):
+                    process(fn_node, bb)
+            for h in getattr(st, "handlers", []) or []:
+                process(fn_node, h.body)
+
+    for f in repo.funcs.values():
+        if f.parent is None:
+            process(f.node, f.node.body)
+            ast.fix_missing_locations(f.node)
+    return count
+
+
+def nested_returns_to_lambdas(repo: Repo) -> int:
+    """N11: a nested `def f(a, b): return <expr>` that is only passed around as a value is the lambda it spells."""
+    count = 0
+    for f in list(repo.funcs.values()):
+        if f.parent is None:
+            continue
+        n = f.node
+        if isinstance(n, ast.AsyncFunctionDef) or n.decorator_list:
+            continue
+        a = n.args
+        if a.vararg or a.kwarg or a.kwonlyargs or a.defaults or a.posonlyargs:
+            continue
+        body = [st for st in n.body if not (isinstance(st, ast.Expr) and isinstance(st.value, ast.Constant) and isinstance(st.value.value, str))]
+        if len(body) != 1 or not isinstance(body[0], ast.Return) or body[0].value is None:
+            continue
+        outer = f.parent.node
+        refs = [x for x in ast.walk(outer) if isinstance(x, ast.Name) and x.id == n.name and isinstance(x.ctx, ast.Load)]
+        called = [c for c in ast.walk(outer) if isinstance(c, ast.Call) and isinstance(c.func, ast.Name) and c.func.id == n.name]
+        if not refs or called:
+            continue
+        if any(isinstance(x, (ast.Yield, ast.YieldFrom, ast.Await)) for x in ast.walk(body[0].value)):
+            continue
+        import copy as _copy
+
+        lam_args = ast.arguments(posonlyargs=[], args=[ast.arg(arg=p.arg) for p in a.args], kwonlyargs=[], kw_defaults=[], defaults=[])
+        ids = {id(x) for x in refs}
+
+        class T(ast.NodeTransformer):
+            def visit_Name(self, node: ast.Name):  # noqa: N802
+                if id(node) in ids:
+                    return ast.copy_location(ast.Lambda(args=_copy.deepcopy(lam_args), body=_copy.deepcopy(body[0].value)), node)
+                return node
+
+        T().visit(outer)
+        _remove_stmt(outer, n)
+        repo.funcs.pop(f.key, None)
+        ast.fix_missing_locations(outer)
+        count += 1
+    return count
+
+
 def loops_to_comprehensions(repo: Repo) -> int:
     """N9:  xs = [] ; for v in it: xs.append(e)   ->   xs = [e for v in it]   (the loop body is that one call)."""
     count = 0
@@ -369,6 +455,8 @@ def loops_to_comprehensions(repo: Repo) -> int:
 
 
 def propagate_aliases(repo: Repo) -> int:
+    repo.normalisation["rebinding_folds"] = fold_rebinding(repo)
+    repo.normalisation["nested_defs_to_lambdas"] = nested_returns_to_lambdas(repo)
     summ = _write_summaries(repo)
     res = _write_summaries.res  # type: ignore[attr-defined]
     total = 0
